@@ -257,8 +257,7 @@ static unsigned int ares_qcache_calc_minttl(ares_dns_record_t *dnsrec)
       unsigned int        ttl  = ares_dns_rr_get_ttl(rr);
 
       /* TTL is meaningless on these record types */
-      if (type == ARES_REC_TYPE_OPT || type == ARES_REC_TYPE_SOA ||
-          type == ARES_REC_TYPE_SIG) {
+      if (type == ARES_REC_TYPE_OPT || type == ARES_REC_TYPE_SIG) {
         continue;
       }
 
